@@ -3,6 +3,7 @@ import itertools
 
 import core
 import suites
+import gens
 from proto import enc
 
 TRUSTED_BASE = [
@@ -79,6 +80,19 @@ def run(ctx):
             cases.append((2, [base, segs], [["push", ["url", base]], ["op", "joinpath", segs, False]]))
             if len(segs) == 1:
                 cases.append((2, [base, segs], [["push", ["url", base]], ["op", "div", segs[0]]]))
+    # every other way to write a path under an authority: with_name / with_suffix (names that become a dot
+    # segment when the suffix goes), parent, and random operation sequences
+    dotted = ["http://h/a/b/..txt", "http://h/a/...tar", "http://h/d/..x", "http://h/.a", "http://h/a/b.c", "http://h/..", "http://h/a/.x."]
+    for b in dotted:
+        for sfx in ("", ".", ".y", "..", ".tar.gz"):
+            cases.append((3, [], [["push", ["url", b]], ["op", "with_suffix", sfx, False, False]]))
+        for nm in ("", ".", "..", "...", ".x", "x.", "a/b", "%2E", "%2e%2E"):
+            cases.append((3, [], [["push", ["url", b]], ["op", "with_name", nm, False, False]]))
+        cases.append((3, [], [["push", ["url", b]], ["op", "parent"]]))
+        cases.append((3, [], [["push", ["url", b]], ["op", "with_suffix", "", False, False], ["op", "with_suffix", ".z", False, False]]))
+    for prg in gens.random_programs(ctx.rng, 1500 if ctx.quick else 20000, maxops=4):
+        if suites.is_autoenc(prg):
+            cases.append((3, [], prg))
     outs = suites.observe(ctx, "C15-entry-points", [c[2] for c in cases], profile=0,
                           classes={"paths": len(upaths), "cases": len(cases)})
     bases = {}
@@ -94,6 +108,8 @@ def run(ctx):
             raw = dec(bo[k][blist.index(a[0])])[8]
             stored = "" if a[0] == "http://h" else raw     # raw_path shows "/" for the empty path under an authority
             return " ".join([enc(2), enc(stored), enc(a[1]), outs[k][i]])
+        if kind == 3:
+            return " ".join([enc(3), outs[k][i]])
         return " ".join([enc(kind), enc(a[0]), outs[k][i]])
     suites.apply_pred(ctx, "C15-entry-points", "c15_url_pred", outs, argline,
                       lambda k, i: {"kind": cases[i][0], "args": cases[i][1], "program": cases[i][2], "impl": outs[k][i][:600]},
